@@ -1,3 +1,4 @@
+import CacheVerif.Proofs.Wrappers
 import CacheVerif.Proofs.ProtoHW
 import CacheVerif.Spec.Linearizability
 import CacheVerif.Proofs.SlotMapHindsight
@@ -165,6 +166,30 @@ theorem specDc_is_AMap_compute [Inhabited V] (m : Spec.AMap K V) (k : K) (f : Op
     by_cases hd : (f none).2 = true <;> simp [hd, hg, Spec.AMap.get_set]
   | some old =>
     by_cases hd : (f (some old)).2 = true <;> simp [hd, Spec.AMap.get_set, Spec.AMap.get_erase]
+
+/-- **the writing methods of `Map`, as printed from `internal/xsync/map.go` on every run, are the builtin-map methods of
+their names**: with `doCompute` meaning `specDc` (what a commit of M4a implements), the function and the two flags each
+method passes give its `Spec.AMap` meaning - new binding of the key, returned value, returned flag -/
+theorem C03_methods_are_spec [Inhabited V] (m : Spec.AMap K V) (k : K) (v : V) (g : Option V → V × Bool) :
+    ((Proofs.Wrappers.viaSpec m k g Gen.Deep.Map_Store v).1 = (Spec.AMap.store m k v).get k) ∧
+    ((Proofs.Wrappers.viaSpec m k g Gen.Deep.Map_LoadOrStore v).1 = (Spec.AMap.loadOrStore m k v).1.get k ∧
+      (Proofs.Wrappers.viaSpec m k g Gen.Deep.Map_LoadOrStore v).2 = (Spec.AMap.loadOrStore m k v).2) ∧
+    ((Proofs.Wrappers.viaSpec m k g Gen.Deep.Map_LoadAndStore v).1 = (Spec.AMap.loadAndStore m k v).1.get k ∧
+      (Proofs.Wrappers.viaSpec m k g Gen.Deep.Map_LoadAndStore v).2 = (Spec.AMap.loadAndStore m k v).2) ∧
+    ((Proofs.Wrappers.viaSpec m k g Gen.Deep.Map_LoadOrCompute v).1 = (Spec.AMap.loadOrStore m k v).1.get k ∧
+      (Proofs.Wrappers.viaSpec m k g Gen.Deep.Map_LoadOrCompute v).2 = (Spec.AMap.loadOrStore m k v).2) ∧
+    ((Proofs.Wrappers.viaSpec m k g Gen.Deep.Map_Compute v).1 = (Spec.AMap.compute m k g).1.get k ∧
+      (Proofs.Wrappers.viaSpec m k g Gen.Deep.Map_Compute v).2 = (Spec.AMap.compute m k g).2) ∧
+    ((Proofs.Wrappers.viaSpec m k g Gen.Deep.Map_LoadAndDelete v).1 = (Spec.AMap.loadAndDelete m k).1.get k ∧
+      (Proofs.Wrappers.viaSpec m k g Gen.Deep.Map_LoadAndDelete v).2 = (Spec.AMap.loadAndDelete m k).2) ∧
+    ((Proofs.Wrappers.viaSpec m k g Gen.Deep.Map_Delete v).1 = (Spec.AMap.loadAndDelete m k).1.get k) :=
+  ⟨(Proofs.Wrappers.store_spec m k v g _ (Or.inl rfl)).1,
+   ⟨(Proofs.Wrappers.loadOrStore_spec m k v g _ (Or.inl rfl)).1, (Proofs.Wrappers.loadOrStore_spec m k v g _ (Or.inl rfl)).2.1⟩,
+   ⟨(Proofs.Wrappers.loadAndStore_spec m k v g _ (Or.inl rfl)).1, (Proofs.Wrappers.loadAndStore_spec m k v g _ (Or.inl rfl)).2.1⟩,
+   ⟨(Proofs.Wrappers.loadOrCompute_spec m k v g _ (Or.inl rfl)).1, (Proofs.Wrappers.loadOrCompute_spec m k v g _ (Or.inl rfl)).2.1⟩,
+   ⟨(Proofs.Wrappers.compute_spec m k v g _ (Or.inl rfl)).1, (Proofs.Wrappers.compute_spec m k v g _ (Or.inl rfl)).2.1⟩,
+   ⟨(Proofs.Wrappers.loadAndDelete_spec m k v g _ (Or.inl rfl)).1, (Proofs.Wrappers.loadAndDelete_spec m k v g _ (Or.inl rfl)).2.1⟩,
+   (Proofs.Wrappers.delete_spec m k v g _ (Or.inl rfl)).1⟩
 
 /-! ### the global linearization of a run (`Proofs/ProtoHW.lean`)
 
